@@ -72,6 +72,7 @@ func (self *MaxJobsSemaphore) Acquire(metadata *Metadata, nonblocking bool) bool
 		return false
 	}
 	self.running[metadata] = struct{}{}
+	verifSlot(self, "SlotAcquire", metadata)
 	return true
 }
 
@@ -102,6 +103,7 @@ func (self *MaxJobsSemaphore) FindDone() {
 		// in fact, running.  Remove them from the semaphore.
 		for _, m := range finished {
 			delete(self.running, m)
+			verifSlot(self, "SlotFoundDone", m)
 		}
 		// If there is now more than one free capacity in the semaphore,
 		// notify other waiters.
@@ -122,6 +124,7 @@ func (self *MaxJobsSemaphore) Release(metadata *Metadata) {
 	defer self.lock.Unlock()
 	if _, ok := self.running[metadata]; ok {
 		delete(self.running, metadata)
+		verifSlot(self, "SlotRelease", metadata)
 		self.cond.Signal()
 	}
 }
